@@ -24,7 +24,7 @@ Ok(r) ==
            /\ r.keq = EquivK(krep, r.d)
            /\ r.keq <= 2 * r.d - 1 \/ ~r.big
            /\ r.n <= r.d
-           /\ r.d <= MaxDivisor
+           /\ r.d <= MaxDivisor * 8        \* a padding operator above asks for lcm(alignment, divisor)
            \* the enumeration the design performs for this event is the one for the representative
            /\ (r.op = "rep" /\ r.big => MultiChoose(r.n, r.keq) = MultiChoose(r.n, EquivK(krep + r.d, r.d)))
     [] r.ev = "modulo" /\ r.op = "pad" -> r.lcm = Lcm(r.r, r.d) /\ r.lcm <= MaxDivisor * 8
